@@ -547,6 +547,179 @@ def stream_path(chk, i, rng, instrument=True):
     chk.count(("path", name, n, bs) if len(vb) >= 2 and nval >= 2 else None)
 
 
+REPRS = ["c64", "c64", "fortran", "readonly", "view", "float32", "list"]
+
+
+def represent(M, kind):
+    """the same values in another representation (all values are multiples of 1/1024 below 2**14: exact in float32)"""
+    M = np.array(M, dtype=np.float64)
+    if kind == "fortran":
+        return np.asfortranarray(M)
+    if kind == "readonly":
+        R = M.copy()
+        R.setflags(write=False)
+        return R
+    if kind == "view":                  # non-contiguous view of a larger buffer
+        big = np.full((2 * M.shape[0], M.shape[1] + 1), -7.0)
+        big[::2, :-1] = M
+        return big[::2, :-1]
+    if kind == "float32":
+        return M.astype(np.float32)
+    if kind == "list":
+        return M.tolist()
+    return M.copy()
+
+
+def snapshot(R):
+    return repr(R) if isinstance(R, list) else (R.dtype.str, R.shape, R.strides, R.tobytes(), bool(R.flags.writeable))
+
+
+def steps_case(rng, i, tier):
+    combos = [("LinearModel", "fit"), ("SparseLinearModel", "path"), ("MLPModel", "fit"), ("SparseMLPModel", "path"),
+              ("SparseLinearModel", "fit"), ("SparseLinearModel", "path"), ("SparseMLPModel", "fit"), ("SparseMLPModel", "path")]
+    name, mode = combos[i % len(combos)]
+    bs_kind = ["none", "n", "n+5", "<n", "1"][(i // len(combos)) % 5]
+    decorate = (i // (len(combos) * 5)) % 2 == 0
+    n = int(rng.integers(3, 13 if tier == "quick" else 20))
+    d = int(rng.integers(3, 6))
+    bs = {"none": None, "n": n, "n+5": n + 5, "<n": int(rng.integers(2, n)) if n > 2 else 1, "1": 1}[bs_kind]
+    X = rng.integers(-16, 17, size=(n, d)) / 8.0
+    X[:, 0] = np.arange(n) / 8.0
+    A = tagged(n)[1] / 1024.0           # asymmetric on purpose: a transposed block is visible
+    pairs = [[int(a), int(b)] for a, b in rng.integers(0, n, size=(6, 2)) if a != b]
+    kind = int(rng.integers(0, 3))
+    other = [q for q in pairs[1:] if set(q) != set(pairs[0])][:1] if pairs else []      # a pair cannot be both must-link and cannot-link
+    ml, cl = (pairs[:1], []) if kind == 0 else ([], pairs[:1]) if kind == 1 else (pairs[:1], other)
+    rx, ra = REPRS[int(rng.integers(0, len(REPRS)))], REPRS[int(rng.integers(0, len(REPRS)))]
+    if mode == "path" and ra == "list":
+        ra = "c64"      # path(X, y=<list of lists>) raises TypeError on the unchanged tree (compute_val_score slices y[..][:, ..]); reported, not exercised
+    return dict(estimator=name, mode=mode, n=n, d=d, batch_size=bs, bs_kind=bs_kind, decorated=decorate and bool(ml or cl),
+                must_link=ml, cannot_link=cl, repr_X=rx, repr_A=ra, seed=int(rng.integers(0, 1000)),
+                solver="sgd" if rng.random() < 0.5 else "adam"), X, A
+
+
+def steps_run(case, Xr, Ar, X64, events):
+    """fit() or path() of a fresh estimator on (Xr, Ar); events=None: no instrumentation.  -> (estimator, flat final weights)"""
+    name, d = case["estimator"], case["d"]
+    gem = make_recording_gemini(events) if events is not None else impl.G.MMDGEMINI(kernel="precomputed")
+    est = impl.make(name, n_clusters=2, gemini=gem, max_iter=2, batch_size=case["batch_size"], alpha=0.5, solver=case["solver"],
+                    random_state=case["seed"])
+    if case["decorated"]:
+        impl.add_mlcl_constraint(est, case["must_link"] or None, case["cannot_link"] or None)
+    if events is not None:
+        def rec_infer(v):                       # _infer(X, retain=True)
+            if len(v) < 2 or v[1]:
+                events.append(("infer", tag_rows(v[0]), None))
+            if len(events) > 200000:
+                raise Budget()
+
+        def rec_cg(v):                          # _compute_grads(X, y_pred, gradient), wrapped OUTSIDE the mlcl decoration
+            r = tag_rows(v[0])
+            whole = all(0 <= k < len(X64) for k in r) and np.array_equal(np.asarray(v[0], dtype=float), X64[r])
+            vis = [int(k) for k in est._batchify.indices] if case["decorated"] else None
+            events.append(("cg", r, (whole, vis)))
+        est._infer, est._compute_grads = spy(est._infer, rec_infer), spy(est._compute_grads, rec_cg)
+    if case["mode"] == "fit":
+        est.fit(Xr, Ar)
+        w = est._get_weights()
+    else:
+        w = est.path(Xr, Ar, alpha_multiplier=3.0, min_features=d - 1, max_patience=1)[0]
+    return est, np.concatenate([np.ravel(a) for a in w] + [np.asarray(est.labels_, dtype=float)])
+
+
+def stream_steps(chk, i, rng, instrument=True):
+    """Every optimiser step of fit() AND of path() (which has its own copy of the training loop), plain and mlcl-decorated,
+    batch_size in {None, n, n+5, <n, 1}, data / affinity in several representations: the rows handed to _compute_grads, the
+    affinity block the GEMINI got and `_batchify.indices` must describe the same samples, every epoch must partition the
+    samples, the arguments must come back untouched and another representation of the same values must change nothing."""
+    case, X, A = steps_case(rng, i, chk.tier)
+    n, bs, mode = case["n"], case["batch_size"], case["mode"]
+    Xr, Ar = represent(X, case["repr_X"]), represent(A, case["repr_A"])
+    if not instrument:
+        steps_run(case, Xr, Ar, X, None)
+        return
+    replay = dict(case)
+    before = snapshot(Xr), snapshot(Ar)
+    events = []
+    try:
+        est, out = steps_run(case, Xr, Ar, X, events)
+    except Budget:
+        chk.fail("steps:count", f"{mode}() made more than 200000 calls: a batching loop does not end", replay, layer="L3")
+        chk.count(None)
+        return
+    if (snapshot(Xr), snapshot(Ar)) != before:
+        chk.fail("steps:argument-modified", f"{mode}() modified its {'X' if snapshot(Xr) != before[0] else 'affinity'} argument in place", replay, layer="L3")
+    if (case["repr_X"], case["repr_A"]) != ("c64", "c64"):
+        _, ref = steps_run(case, X.copy(), A.copy(), X, None)
+        # a float32 affinity is used as given (the GEMINI then computes in single precision): float32 resolution there,
+        # bit-for-bit everywhere else (X is converted to float64 on entry, the values are exactly representable)
+        f32 = case["repr_A"] == "float32"
+        nl = n if f32 else 0                     # labels can flip at a near tie under single precision: weights only
+        same = ref.shape == out.shape and (np.allclose(ref[:len(ref) - nl], out[:len(out) - nl], rtol=1e-3, atol=1e-4) if f32 else np.array_equal(ref, out))
+        if not same:
+            chk.fail("steps:representation", f"{mode}() on X as {case['repr_X']} / affinity as {case['repr_A']} ends with other weights or labels than on "
+                     f"float64 C-contiguous arrays holding the same values (max difference "
+                     f"{float(np.abs(ref - out).max()) if ref.shape == out.shape else 'shape'})", replay, layer="L3")
+    # the optimiser steps: retained _infer -> GEMINI(return_grad=True) -> _compute_grads
+    steps, cur = [], None
+    for kind, a, extra in events:
+        if kind == "infer":
+            cur = {"rows": a}
+        elif kind == "grad" and cur is not None and "block" not in cur:
+            cur["block"] = a
+        elif kind == "cg":
+            if cur is None or "block" not in cur:
+                chk.fail("steps:shape", f"_compute_grads of {mode}() was not preceded by a retained forward pass and a GEMINI gradient", replay, layer="L3")
+                chk.count(None)
+                return
+            cur["cg"], (cur["whole"], cur["visible"]) = a, extra
+            steps.append(cur)
+            cur = None
+    bs_eff = n if bs is None else bs
+    per_epoch = math.ceil(n / bs_eff)
+    if len(steps) % per_epoch or not steps or (mode == "fit" and len(steps) != 2 * per_epoch):
+        chk.fail("steps:count", f"{mode}() made {len(steps)} optimiser steps, not a multiple of ceil(n/batch_size)={per_epoch}"
+                 + (" (max_iter=2)" if mode == "fit" else ""), replay, layer="L3")
+        chk.count(None)
+        return
+    for k, st in enumerate(steps):
+        r = st["rows"]
+        if st["cg"] != r or not st["whole"]:
+            chk.fail("steps:rows", f"step {k} of {mode}(): _compute_grads got rows of samples {st['cg']} (complete rows of X: {st['whole']}) "
+                     f"after a forward pass on samples {r}", replay, layer="L3")
+            break
+        if st["block"] is None or st["block"].shape != (len(r), len(r)) or not np.array_equal(st["block"], A[np.ix_(r, r)]):
+            chk.fail("steps:block", f"step {k} of {mode}(): the affinity block is not affinity[rows][:, rows] of the step's samples {r} "
+                     f"(decoded rows/columns: {decode_block(st['block'], n, 1 / 1024.0) if st['block'] is not None else None})", replay, layer="L3")
+            break
+        if case["decorated"] and st["visible"] != r:
+            chk.fail("steps:indices-stale", f"step {k} of {mode}() (batch_size={bs}, n={n}): the decorated _compute_grads reads _batchify.indices="
+                     f"{st['visible']} while the rows of its X_batch are samples {r}: the must-link / cannot-link terms hit the wrong rows", replay, layer="L3")
+            break
+    else:
+        for e in range(len(steps) // per_epoch):
+            ep = steps[e * per_epoch:(e + 1) * per_epoch]
+            ep_rows = [st["rows"] for st in ep]
+            if not oracle_partition(chk, "steps", n, bs_eff, ep_rows, dict(replay, epoch=e)):
+                break
+            perm = [v for b in ep_rows for v in b]
+            exp = model_epoch(chk, n, bs, perm)
+            if exp != ep_rows:
+                chk.fail("steps:model-mismatch", f"epoch {e} of {mode}(): batches {ep_rows} differ from the model's {exp}", replay)
+                break
+            code = code_epoch(chk, n, bs, perm)
+            mine = [(st["rows"],) + tuple(decode_block(st["block"], n, 1 / 1024.0) or (None, None)) for st in ep]
+            if code is not None and code != mine:
+                chk.fail("steps:code-model-mismatch", f"epoch {e} of {mode}(): (rows, affinity rows, affinity columns)={mine[:3]}, regenerated code model {code[:3]}", replay)
+                break
+        chk.traces += 1
+    chk.dist[f"steps:{mode}:{'mlcl' if case['decorated'] else 'plain'}:bs={case['bs_kind']}"] += 1
+    chk.dist[f"steps:repr:{case['repr_X']}/{case['repr_A']}"] += 1
+    chk.count(("steps", case["estimator"], mode, n, case["bs_kind"], case["decorated"], case["repr_X"], case["repr_A"]))
+    chk.sample({"stream": "steps", **{k: case[k] for k in ("estimator", "mode", "n", "batch_size", "decorated", "repr_X", "repr_A")},
+                "steps": len(steps), "first": steps[0]["rows"]}, limit=8)
+
+
 def stream_valscore(chk, i, rng):
     """compute_val_score called directly with stub estimator / objective: blocks, weighting, normalisation."""
     from gemclus.sparse._base_sparse import compute_val_score
@@ -633,7 +806,7 @@ def stream_valscore(chk, i, rng):
 
 STREAMS = {"batchify": (stream_batchify, 340, 3000), "decorated": (stream_decorated, 140, 1000),
            "fit": (guarded("fit", stream_fit), 60, 480), "refit": (guarded("refit", stream_refit), 48, 360),
-           "path": (guarded("path", stream_path), 8, 60), "valscore": (stream_valscore, 200, 2000)}
+           "path": (guarded("path", stream_path), 8, 60), "steps": (guarded("steps", stream_steps), 80, 640), "valscore": (stream_valscore, 200, 2000)}
 
 
 def main():
@@ -655,7 +828,9 @@ def main():
     chk.finish(rule="streams: direct _batchify on every batched/nonparametric estimator with index-tagged data and affinity (n<=40 quick, <=120 thorough, "
                     "batch_size in 1..n+2/None), mlcl-decorated _batchify, real fits (plain and mlcl-decorated) with recorded forward passes / affinity blocks / optimiser steps / "
                     "the indices the decorated _compute_grads sees, the same estimator refitted on a data set of another size, "
-                    "real path() runs with recorded validation blocks and training steps, compute_val_score called directly with stub estimator/objective "
+                    "real path() runs with recorded validation blocks and training steps, every optimiser step of fit() and path() of plain / mlcl-decorated "
+                    "linear, MLP and sparse models with batch_size None / n / n+5 / <n / 1 and data in several representations (rows, affinity block and "
+                    "_batchify.indices aligned; partition per epoch; arguments untouched; same result as on float64 C arrays), compute_val_score called directly with stub estimator/objective "
                     "(blocks, len-weighted mean); every stream also against the code model instantiated with the rules regenerated from the sources. non-trivial = at least two batches per epoch (or a nonparametric full-batch case); "
                     "distinct = distinct (estimator, n, batch_size, ...) signature")
 
